@@ -8,12 +8,12 @@ import (
 )
 
 var MenuCore = []string{
-	"c1:", "s1:", "c1:xfer", "c1:vupdate(s1)", "c1:vdeposit(s1)", "c1:vwithdraw(s1)", "c1:voff(s1)",
+	"c1:", "s1:", "c1:xfer", "c1:clear", "c1:vupdate(s1)", "c1:vdeposit(s1)", "c1:vwithdraw(s1)", "c1:voff(s1)",
 	"c1:dadd(s1)", "c1:dsub(s1)", "c1:dsuball(s1)", "c1:vcreate(n1)", "c1:!dsign(s1)",
 }
 
 var MenuMore = []string{
-	"c1:revert", "c1:store+create", "c1:lowgas+badstk", "c1:vwithdrawall(s1)", "c1:vwithdrawmuch(s1)", "c1:von(s1)",
+	"c1:revert", "c1:store+create", "c1:clear+xfer", "c1:lowgas+badstk", "c1:vwithdrawall(s1)", "c1:vwithdrawmuch(s1)", "c1:von(s1)",
 	"c1:vsettle(s1)", "c1:dsubmuch(s1)", "c1:dsettle(s1)", "c1:dadd2(s1)", "c1:voff(h1)", "c1:vdeposit(h1)",
 	"c1:dadd(s1)+vwithdraw(s1)", "s1:!dsign(c1)",
 }
@@ -26,11 +26,12 @@ var Prefixes = map[string][]string{
 	"pending-dlg": {"c1:vupdate(s1)+vupdate(h1)", "c1:dadd(s1)+dadd2(s1)"},
 	"delegated":   {"c1:vupdate(s1)+vupdate(h1)", "c1:dadd(s1)+dadd2(s1)", "c1:"},
 	"withdrawing": {"c1:vupdate(s1)+vupdate(h1)", "c1:dadd(s1)+dadd2(s1)", "c1:", "c1:dsub(s1)+vwithdraw(s1)", "s1:"},
+	"matured":     {"c1:vupdate(s1)+vupdate(h1)", "c1:dadd(s1)+dadd2(s1)", "c1:", "c1:dsub(s1)+vwithdraw(s1)", "s1:", "c1:", "c1:", "c1:"},
 	"expelled":    {"c1:vupdate(s1)+vupdate(h1)", "c1:dadd(s1)+dadd2(s1)", "c1:", "c1:!dsign(s1)"},
 	"newval":      {"c1:vcreate(n1)", "c1:", "c1:von(n1)"},
 }
 
-var PrefixOrder = []string{"genesis", "pending-dlg", "delegated", "withdrawing", "expelled", "newval"}
+var PrefixOrder = []string{"genesis", "pending-dlg", "delegated", "withdrawing", "matured", "expelled", "newval"}
 
 // Explore runs the bounded block-history exploration with the given oracles:
 // every sequence of <= depth blocks over the menu, from genesis and from every
